@@ -310,7 +310,7 @@ def main():
         }],
         "checks": checks,
         "not_applicable": [{"property_id": p, "reason": NOT_YET} for p in ALL if p not in CHECKS],
-        "notes": "25 fix: commits in /repo (7837be1 ... 2fd7a0c) and 19 recorded findings: see KNOWN_FINDINGS.txt and DESIGN.md section 10.4 / 10.7. Seeded breaking changes (114 in six rounds) and what catches them: /verif/seeded and DESIGN.md section 10.6.",
+        "notes": "25 fix: commits in /repo (7837be1 ... 2fd7a0c) and 19 recorded findings: see KNOWN_FINDINGS.txt and DESIGN.md section 10.4 / 10.7. Seeded breaking changes (133 in seven rounds) and what catches them: /verif/seeded and DESIGN.md section 10.6.",
     }
     Path("/verif/MANIFEST.json").write_text(json.dumps(m, indent=1) + "\n")
 
